@@ -1577,6 +1577,58 @@ def values_per_iteration(loop, b):
     return n, nested, leaves, ws
 
 
+def eval_type_guard(test, member, extra=None):
+    """Value of a condition on the attribute type (`x.type == Attribute.Type.Bool`, `in (..)`, and/or/not) when the
+    type is the enum member named `member`; `extra(test)` may decide other atoms; None = not about the type."""
+    if isinstance(test, ast.BoolOp):
+        vals = [eval_type_guard(v, member, extra) for v in test.values]
+        return _and3(vals) if isinstance(test.op, ast.And) else _or3(vals)
+    if isinstance(test, ast.UnaryOp) and isinstance(test.op, ast.Not):
+        v = eval_type_guard(test.operand, member, extra)
+        return None if v is None else (not v)
+    if isinstance(test, ast.Compare) and len(test.ops) == 1:
+        l, r, op = test.left, test.comparators[0], test.ops[0]
+
+        def mem(x):
+            if isinstance(x, ast.Attribute) and isinstance(x.value, ast.Attribute) and x.value.attr == "Type" \
+                    and x.attr in ("Bool", "Int", "Float", "Complex", "String"):
+                return x.attr
+            return None
+
+        def is_type_expr(x):
+            return isinstance(x, ast.Attribute) and x.attr in ("type", "data_type")
+        for a, c in ((l, r), (r, l)):
+            if is_type_expr(a):
+                if mem(c) is not None and isinstance(op, (ast.Eq, ast.NotEq, ast.Is, ast.IsNot)):
+                    v = mem(c) == member
+                    return v if isinstance(op, (ast.Eq, ast.Is)) else (not v)
+                if isinstance(c, (ast.Tuple, ast.List, ast.Set)) and all(mem(e) for e in c.elts) and isinstance(op, (ast.In, ast.NotIn)) and a is l:
+                    v = member in [mem(e) for e in c.elts]
+                    return v if isinstance(op, ast.In) else (not v)
+    return extra(test) if extra else None
+
+
+def branch_runs(node, member, stop=None, extra=None):
+    """True / False / None: can `node` execute when the attribute type is `member` (guards not about the type ignored)."""
+    vals = []
+    for t, pol in au.guards(node, stop=stop):
+        v = eval_type_guard(t, member, extra)
+        vals.append(None if v is None else (v == pol))
+    return _and3(vals or [True])
+
+
+def payload_conversions(fields):
+    """{type member name: source of the conversion applied to each payload token in Chunk.__init__}"""
+    out = {}
+    for T in ("Bool", "Int", "Float", "Complex", "String"):
+        for lo, conv, st in fields.get("data[]", []):
+            if branch_runs(st, T) is not False:
+                out[T] = conv or "<raw>"
+                out[T + ":stmt"] = st
+                break
+    return out
+
+
 def _unquote(txt):
     return txt.strip().strip('"')
 
@@ -1675,27 +1727,252 @@ def g1_header_layout(ctx, repo, wfn, afn, fields, start, role_field):
               "geogram: export_attribute does not write attr[i] (or attr[i][0..elemsize-1]) for every i in range(size)",
               "the importer assigns value group k to element k; a sparse / transposed dump attaches values to the wrong elements",
               note="geogram: attribute payload is dense and element-major")
-    # Bool values in the integer form the importer parses
-    bool_reader_int = any("Bool" in au.src(t) and conv and "int(" in conv
-                          for lo, conv, st in fields.get("data[]", []) for t, pol in au.guards(st) if pol)
+    # value text per type: Bool through int() (the importer parses bool(int(token))), Int/Float never through int()/round()
+    reader_conv = payload_conversions(fields)
     nb = 0
     if len(outer) == 1:
+        size_expr = roles["elemsize"][2].expr
+
+        def size_atom(n_):
+            def ex(t):
+                if any(au.same(x, size_expr) for x in au.walk(t)):
+                    return cc.eval_test(_TagSubst(au.norm(size_expr)).visit(cc.clean(t)), {"__tag": n_})
+                return None
+            return ex
         for lf in cc.leaves(afn, ab):
             if not any(a is outer[0] for a in au.ancestors(lf.node)):
                 continue
             if lf.how == "str" or not any(isinstance(x, ast.Subscript) for x in au.walk(lf.expr)):
                 continue
-            gs = [(t, pol) for t, pol in au.guards(lf.node, stop=outer[0]) if "Bool" in au.src(t)]
-            as_int = isinstance(lf.expr, ast.Call) and isinstance(lf.expr.func, ast.Name) and lf.expr.func.id == "int"
+            as_int = isinstance(lf.expr, ast.Call) and isinstance(lf.expr.func, ast.Name) and lf.expr.func.id in ("int", "round")
             nb += 1
-            if bool_reader_int:
-                good = (gs and not gs[0][1]) or as_int
-                ctx.check(bool(good), "C04-A1", ctx.site(mod, afn, lf.node),
+            site = ctx.site(mod, afn, lf.node)
+            if reader_conv.get("Bool") and "int(" in reader_conv["Bool"] and branch_runs(lf.node, "Bool", stop=outer[0]) is not False:
+                ctx.check(as_int, "C04-A1", site,
                           f"geogram: a Bool attribute value may be written as `{au.src(lf.expr)}` (True/False), the importer "
                           f"parses bool(int(token))", "int('True') raises: a mesh with a Bool attribute cannot be reloaded",
                           note="geogram: Bool values written through int()")
+            for T in ("Float", "Int"):
+                if branch_runs(lf.node, T, stop=outer[0]) is not False:
+                    ctx.check(not as_int, "C04-A1", site,
+                              f"geogram: a {T} attribute value may be written as `{au.src(lf.expr)}`",
+                              "int() / round() truncates the value (2.5 is saved as 2)",
+                              note=f"geogram: {T} values written as they are")
+            # scalar form only for arity 1, component loop for every other arity
+            inner = [a for a in au.ancestors(lf.node) if isinstance(a, ast.For) and a is not outer[0]
+                     and any(x is a for x in au.walk(outer[0]))]
+            r1 = _and3([(lambda v, pol: None if v is None else (bool(v) == pol))(size_atom(1)(t), pol)
+                        for t, pol in au.guards(lf.node, stop=outer[0])] or [True])
+            r2 = _and3([(lambda v, pol: None if v is None else (bool(v) == pol))(size_atom(2)(t), pol)
+                        for t, pol in au.guards(lf.node, stop=outer[0])] or [True])
+            if inner:
+                ctx.check(r2 is not False, "C04-G1", site,
+                          "geogram: the per-component write of export_attribute does not run for attributes of arity 2 or more",
+                          "vector attributes are written in the scalar form (`[1. 2.]` on one line) or not at all",
+                          note="geogram: component loop runs for arity >= 2")
+            else:
+                ctx.check(r1 is not False and r2 is False, "C04-G1", site,
+                          "geogram: the scalar write of export_attribute is not selected exactly for attributes of arity 1",
+                          f"runs for arity 1: {r1}, for arity 2: {r2}; a vector is written as one token / a scalar is indexed",
+                          note="geogram: scalar form iff arity 1")
     floor(ctx, "C04-A1 attribute value sites", nb, 2, asite)
     return roles, cont_param
+
+
+def g1_import_store(ctx, repo, iafn, role_field):
+    """import_attribute stores, for every element, the scalar (arity 1; a value equal to the default may be skipped)
+    or the full group of `arity` values (arity > 1, never filtered component-wise)."""
+    mod = GEO
+    site = ctx.site(mod, iafn)
+    ps = au.params(iafn)
+    arity_f = role_field.get("arity")
+    b = sym.Bindings(iafn)
+    stores = [st for st in au.stmts(iafn.body) if isinstance(st, ast.Assign) and len(st.targets) == 1
+              and isinstance(st.targets[0], ast.Subscript) and isinstance(st.targets[0].value, ast.Name)
+              and len(ps) > 1 and st.targets[0].value.id == ps[1]]
+    if not stores or arity_f is None:
+        ctx.fail("C04-G1", site, "geogram: import_attribute does not store values with `attr[i] = ...`", "")
+        return
+
+    def is_arity(x):
+        return isinstance(x, ast.Attribute) and x.attr == arity_f
+
+    def runs(st, n_):
+        """(can the store run for arity n_?, value-dependent atoms deciding it)"""
+        can, filters = True, []
+        for t, pol in au.guards(st):
+            ar = [x for x in au.walk(t) if is_arity(x)]
+            key = au.norm(ar[0]) if ar else "<none>"
+            outs = {_eval_mixed(t, key, n_, u) for u in (True, False)}
+            if None in outs:
+                continue
+            if pol not in outs:
+                can = False
+            elif len(outs) == 2:
+                filters += [(q, pol) for q in _value_atoms(t, key)]
+        return can, filters
+
+    def scalar(st):
+        v = st.value
+        return isinstance(v, ast.Subscript) and au.const(v.slice) == 0
+
+    for n_ in (1, 2, 3):
+        can = [(st, *runs(st, n_)) for st in stores]
+        live = [(st, r, f) for st, r, f in can if r]
+        if n_ == 1:
+            ok = bool(live) and all(scalar(st) for st, r, f in live)
+            ctx.check(ok, "C04-G1", site,
+                      "geogram: for an attribute of arity 1 import_attribute does not store the single value of each element",
+                      f"stores reachable for arity 1: {[au.src(st) for st, r, f in live]}",
+                      note="geogram: arity 1 -> attr[i] = value")
+        else:
+            okv = bool(live) and all(not scalar(st) for st, r, f in live)
+            filt = [q for st, r, f in live for q in f]
+            bad_f = [q for q in filt if not _harmless_filter(q)]
+            ctx.check(okv and not bad_f, "C04-G1", site,
+                      f"geogram: for an attribute of arity {n_} import_attribute does not store every group of {n_} values as read",
+                      f"stores reachable: {[au.src(st) for st, r, f in live]}; value-dependent conditions: "
+                      f"{[au.src(q[0] if isinstance(q, tuple) else q) for q in bad_f]}: a vector with some default component "
+                      f"(0 / False) or a scalar slot is dropped or mis-stored", note=f"geogram: arity {n_} -> attr[i] = group")
+
+
+def _eval_mixed(t, key, n_, u):
+    """evaluate a boolean expression whose atoms are arity comparisons (decided for arity n_) or value filters (= u)"""
+    if isinstance(t, ast.BoolOp):
+        vals = [_eval_mixed(v, key, n_, u) for v in t.values]
+        if any(v is None for v in vals):
+            return None
+        return all(vals) if isinstance(t.op, ast.And) else any(vals)
+    if isinstance(t, ast.UnaryOp) and isinstance(t.op, ast.Not):
+        v = _eval_mixed(t.operand, key, n_, u)
+        return None if v is None else (not v)
+    if any(au.norm(x) == key for x in ast.walk(t) if isinstance(x, ast.expr)):
+        v = cc.eval_test(_TagSubst(key).visit(cc.clean(t)), {"__tag": n_})
+        return None if v is None else bool(v)
+    return u
+
+
+def _value_atoms(t, key):
+    """maximal sub-expressions of a condition that do not mention the arity"""
+    if isinstance(t, ast.BoolOp):
+        return [a for v in t.values for a in _value_atoms(v, key)]
+    if isinstance(t, ast.UnaryOp) and isinstance(t.op, ast.Not):
+        return _value_atoms(t.operand, key)
+    if any(au.norm(x) == key for x in ast.walk(t) if isinstance(x, ast.expr)):
+        return []
+    return [t]
+
+
+def _harmless_filter(q):
+    """a value filter that only skips groups entirely equal to the default: `(val != default).any()` / `any(..)`"""
+    t, pol = q if isinstance(q, tuple) else (q, True)
+    src_ = au.src(t)
+    if not pol:
+        return False
+    if isinstance(t, ast.Call) and au.call_tail(t) == "any":
+        return "!=" in src_
+    return False
+
+
+def g1_reader_ptr_tables(ctx, repo, rfn, tables):
+    """Importer side of the *_ptr chunks: sizes are differences of consecutive offsets, the last one up to the number
+    of corners; without the chunk, offsets are the running sum of the default size starting at 0."""
+    mod = GEO
+    site = ctx.site(mod, rfn)
+    b = sym.Bindings(rfn)
+    for kind, (names, default, node, table, extra, cont) in sorted(tables.items()):
+        apps = [a for a in au.calls(rfn) if au.call_tail(a) == "append" and isinstance(a.func.value, ast.Name)
+                and a.func.value.id == table and any(pol and names and names[0] in au.src(t) for t, pol in au.guards(a))]
+        in_loop = [a for a in apps if any(isinstance(x, ast.For) for x in au.ancestors(a)) and
+                   any(isinstance(x, ast.For) and any(names[0] in au.src(t) for t, pol in au.guards(x)) for x in au.ancestors(a))]
+        last = [a for a in apps if a not in in_loop]
+        ok = False
+        why = "fill loop / last size not found"
+        if len(in_loop) == 1 and len(last) == 1:
+            a = in_loop[0]
+            lp = next(x for x in au.ancestors(a) if isinstance(x, ast.For))
+            i = lp.target.id if isinstance(lp.target, ast.Name) else None
+            e = a.args[0]
+            rng = _range_arg(lp)
+            good = isinstance(e, ast.BinOp) and isinstance(e.op, ast.Sub) and i and rng is not None \
+                and all(isinstance(x, ast.Subscript) and isinstance(x.value, ast.Attribute) and x.value.attr == "data" for x in (e.left, e.right))
+            if good:
+                pl, pr = sym.to_poly(e.left.slice), sym.to_poly(e.right.slice)
+                good = pl - pr == sym.Poly.const(1) and pr == sym.Poly.atom(i)
+                pr_ = sym.to_poly(rng)
+                cnt = [x for x in au.walk(rng) if isinstance(x, ast.Subscript) and isinstance(x.slice, ast.Attribute)]
+                good = good and len(cnt) == 1 and cnt[0].slice.attr == cont and \
+                    pr_ == sym.to_poly(cnt[0]) - 1
+                why = f"size i is `{au.src(e)}` for i in range({au.src(rng)})"
+            l = last[0].args[0]
+            good2 = isinstance(l, ast.BinOp) and isinstance(l.op, ast.Sub) and isinstance(l.left, ast.Subscript) \
+                and isinstance(l.left.slice, ast.Attribute) and l.left.slice.attr.endswith("CORNERS") \
+                and isinstance(l.right, ast.Subscript) and isinstance(l.right.value, ast.Attribute) and l.right.value.attr == "data" \
+                and au.const(l.right.slice) == -1
+            ok = bool(good and good2)
+            if good and not good2:
+                why = f"last size is `{au.src(l)}`"
+        ctx.check(ok, "C04-G1", site,
+                  f"geogram: the sizes of {kind} are not recovered from `{names[0] if names else '?'}` as ptr[i+1] - ptr[i] "
+                  f"(last: number of corners - ptr[-1])", why, note=f"geogram: sizes of {kind} = differences of consecutive offsets")
+        # default offsets
+        ok = False
+        for st in au.stmts(rfn.body):
+            if isinstance(st, ast.For) and isinstance(st.iter, ast.Name) and st.iter.id == table and isinstance(st.target, ast.Name):
+                c = st.target.id
+                app = [x for x in st.body if isinstance(x, ast.Expr) and isinstance(x.value, ast.Call) and au.call_tail(x.value) == "append"
+                       and len(x.value.args) == 1 and isinstance(x.value.args[0], ast.Name)]
+                if len(app) != 1:
+                    continue
+                P = app[0].value.args[0].id
+                init = b.reaching(P, st)
+                incs = [(k, x) for k, x in enumerate(st.body) if P in [n_ for t in au.assign_targets(x) for n_ in au.assigned_names(t)]]
+                if len(incs) != 1:
+                    continue
+                k, inc = incs[0]
+                delta = sym.to_poly(inc.value) if isinstance(inc, ast.AugAssign) and isinstance(inc.op, ast.Add) else (
+                    sym.to_poly(inc.value) - sym.Poly.atom(P) if isinstance(inc, ast.Assign) else None)
+                ok = isinstance(init, ast.Constant) and init.value == 0 and delta == sym.Poly.atom(c) \
+                    and k > st.body.index(app[0])
+        ctx.check(ok, "C04-G1", site,
+                  f"geogram: without a size chunk the offsets of {kind} are not the running sum of the default size starting at 0",
+                  f"element i of a file without `{names[0] if names else '?'}` starts at corner {default}*i",
+                  note=f"geogram: default offsets of {kind} = running sum from 0")
+
+
+def g1_attribute_loops(ctx, repo, wfn, names_written):
+    """`for key in mesh.K.attributes`: every attribute is exported, except the ones written separately above."""
+    mod = GEO
+    b = sym.Bindings(wfn)
+    for lp in au.stmts(wfn.body):
+        if not (isinstance(lp, ast.For) and isinstance(lp.iter, ast.Attribute) and lp.iter.attr == "attributes"
+                and isinstance(lp.target, ast.Name)):
+            continue
+        calls = [c for c in au.calls(lp) if au.call_tail(c) == "export_attribute"]
+        if not calls:
+            continue
+        key = lp.target.id
+        site = ctx.site(mod, wfn, lp)
+        skipped, bad = [], None
+        for st in lp.body:
+            if isinstance(st, ast.If) and any(isinstance(x, ast.Continue) for x in st.body) and not st.orelse:
+                t = st.test
+                ok = isinstance(t, ast.Compare) and len(t.ops) == 1 and isinstance(t.ops[0], ast.Eq) \
+                    and isinstance(t.left, ast.Name) and t.left.id == key and isinstance(t.comparators[0], ast.Constant)
+                if ok:
+                    skipped.append(t.comparators[0].value)
+                elif isinstance(t, ast.Compare) and isinstance(t.ops[0], ast.In) and isinstance(t.left, ast.Name) and t.left.id == key \
+                        and isinstance(t.comparators[0], (ast.Tuple, ast.List, ast.Set)):
+                    skipped += [au.const(e) for e in t.comparators[0].elts]
+                else:
+                    bad = au.src(t)
+        gs = [au.src(t) for c in calls for t, pol in au.guards(c, stop=lp)]
+        handled = all(any(str(nm) == w.split("::")[-1] for w in names_written) for nm in skipped)
+        ctx.check(bad is None and not gs and handled, "C04-G1", site,
+                  f"geogram: not every attribute of mesh.{lp.iter.value.attr if isinstance(lp.iter.value, ast.Attribute) else '?'} "
+                  f"is exported (only the ones written as their own chunk may be skipped)",
+                  f"skip condition {bad or gs or skipped}: user attributes are missing from the file",
+                  note=f"geogram: all attributes of {au.src(lp.iter)} exported, skipping {skipped}")
 
 
 def g1_import_stride(ctx, repo, iafn, role_field):
@@ -1717,6 +1994,22 @@ def g1_import_stride(ctx, repo, iafn, role_field):
                 ok = p.coeff(j) == sym.Poly.const(1) and p.coeff(i) == stride and p.without(i).without(j).is_zero() \
                     and isinstance(ir, ast.BinOp) and isinstance(ir.op, ast.FloorDiv) and sym.to_poly(ir.right) == stride \
                     and isinstance(jr, ast.Attribute) and jr.attr == role_field.get("arity")
+    # slice form: group i = data[arity*i : arity*(i+1)]
+    sl = [x for x in au.walk(iafn) if isinstance(x, ast.Subscript) and isinstance(x.ctx, ast.Load)
+          and isinstance(x.value, ast.Attribute) and x.value.attr == "data" and isinstance(x.slice, ast.Slice)]
+    if not subs and len(sl) == 1 and sl[0].slice.lower is not None and sl[0].slice.upper is not None and sl[0].slice.step is None:
+        x = sl[0]
+        loops = [a for a in au.ancestors(x) if isinstance(a, ast.For)]
+        if loops and isinstance(loops[0].target, ast.Name):
+            i = loops[0].target.id
+            ir = _range_arg(loops[0])
+            lo = sym.to_poly(cc.resolve(ib, x.slice.lower, at=x, keep=(i,)))
+            hi = sym.to_poly(cc.resolve(ib, x.slice.upper, at=x, keep=(i,)))
+            stride = lo.coeff(i)
+            ok = lo.without(i).is_zero() and hi - lo == stride and not stride.is_zero() \
+                and stride.atoms() == {"⟨" + a_ + "⟩" for a_ in [au.src(n_) for n_ in au.walk(x.slice.lower)
+                                                                  if isinstance(n_, ast.Attribute) and n_.attr == role_field.get("arity")][:1]} \
+                and isinstance(ir, ast.BinOp) and isinstance(ir.op, ast.FloorDiv) and sym.to_poly(ir.right) == stride
     ctx.check(ok, "C04-G1", isite, "geogram: import_attribute does not read value j of element i at data[arity*i + j]",
               "values are written element-major with `arity` values per element", note="geogram: import stride = arity")
 
@@ -1839,9 +2132,20 @@ def geogram_containers(ctx, repo, wfn, member_field, quoted, fold_container):
                   note=f"geogram: mesh.{fld} attributes -> {m}")
 
 
-def geogram_counts(ctx, repo, wfn, rfn, b, mesh, special, member_field, atts):
+def geogram_counts(ctx, repo, wfn, rfn, b, mesh, special, member_field, atts, fields=None):
     mod = GEO
     wsite = ctx.site(mod, wfn)
+    # [ATTS] layout: the count is written on the line the importer converts under its ATTS branch
+    if fields:
+        rk = [(f_, v[0]) for f_, v in fields.items() if not f_.endswith("[]") and v[1] == "int"
+              and any("ATTS" in au.src(t) for t, pol in au.guards(v[2]) if pol)]
+        for c, tag, lines in chunk_writes(wfn, b):
+            if tag == "[ATTS]":
+                wl = [k for k, ln in enumerate(lines) if ln and ln[0][0] == "leaf"]
+                ctx.check(len(rk) == 1 and wl == [rk[0][1]], "C04-H1", ctx.site(mod, wfn, c),
+                          f"geogram: an [ATTS] chunk carries its element count on line {wl}, the importer reads line "
+                          f"{[k for f_, k in rk]}", "container sizes are wrong: no / too many elements are read",
+                          note=f"geogram: [ATTS] count on line {wl}")
     for X in sorted(member_field):
         used = any(isinstance(x, ast.Subscript) and isinstance(x.slice, ast.Attribute) and x.slice.attr == X
                    and isinstance(au.parent(x), ast.Call) and au.call_tail(au.parent(x)) == "range" for x in au.walk(rfn))
@@ -2034,19 +2338,18 @@ def geogram_rows(ctx, repo, rfn, cfn, rblocks, fields):
                       note=f"geogram: {rb.kind} corners read consecutively in order")
         else:
             ctx.fail("C04-G1", site, f"geogram: {rb.kind} row construction not found", "")
-    for lo, conv, st in fields.get("data[]", []):
-        g = " ".join(au.src(t) for t, pol in au.guards(st) if pol)
-        if conv is None:
+    pc = payload_conversions(fields)
+    for T, rule, okset in (("Int", "C04-B1", {"int"}), ("Float", "C04-L1", FLOAT_OK)):
+        st = pc.get(T + ":stmt")
+        if st is None or not isinstance(st.value, (ast.ListComp, ast.GeneratorExp)):
+            ctx.fail(rule, ctx.site(mod, cfn), f"geogram: conversion of the payload of {T} chunks not found",
+                     f"Chunk.__init__ must turn the tokens of a {T} chunk into numbers")
             continue
         cv, off = _conv_of(st.value.elt)
-        if ".Int" in g:
-            ctx.check(cv == "int" and off == 0, "C04-B1", ctx.site(mod, cfn, st),
-                      f"geogram: integer payload parsed as `{conv}`", "geogram indices are 0-based integers",
-                      note="geogram: index payload parsed with int(token)")
-        elif ".Float" in g:
-            ctx.check(cv in FLOAT_OK and off == 0, "C04-L1", ctx.site(mod, cfn, st),
-                      f"geogram: float payload parsed as `{conv}`", "coordinates must be recovered bit-exactly",
-                      note="geogram: coordinates parsed as float64")
+        ctx.check(cv in okset and off == 0, rule, ctx.site(mod, cfn, st),
+                  f"geogram: the payload of {T} chunks is parsed as `{pc[T]}`",
+                  "geogram indices are 0-based integers" if T == "Int" else "coordinates must be recovered bit-exactly",
+                  note=f"geogram: {T} payload parsed with {cv}")
 
 
 def run_geogram(ctx, repo):
@@ -2072,13 +2375,16 @@ def run_geogram(ctx, repo):
     floor(ctx, "C04-E1 geogram importer row blocks", len(rblocks), 4, ctx.site(mod, rfn))
     roles, cont_param = g1_header_layout(ctx, repo, wfn, afn, fields, start, role_field)
     g1_import_stride(ctx, repo, iafn, role_field)
+    g1_import_store(ctx, repo, iafn, role_field)
     tables = arity_tables(repo, rfn)
     ptr_names = {n_: (kind, t[5]) for kind, t in tables.items() for n_ in t[0]}
     names_written, atts = geogram_chunks(ctx, repo, wfn, prov, b, special, start, tfold, fold_container, ptr_names)
     quoted = bool(roles and cont_param and roles.get("param:" + cont_param, (0, False))[1])
     geogram_containers(ctx, repo, wfn, member_field, quoted, fold_container)
-    geogram_counts(ctx, repo, wfn, rfn, b, prov.mesh, special, member_field, atts)
+    geogram_counts(ctx, repo, wfn, rfn, b, prov.mesh, special, member_field, atts, fields)
     geogram_arity_tables(ctx, repo, wfn, rfn, wblocks, names_written, tables, prov, b)
+    g1_reader_ptr_tables(ctx, repo, rfn, tables)
+    g1_attribute_loops(ctx, repo, wfn, names_written)
     geogram_rows(ctx, repo, rfn, cfn, rblocks, fields)
     floor(ctx, "C04-X1 geogram exporter preconditions", geogram_precondition(ctx, repo, wfn), 1, ctx.site(mod, wfn))
     nb = b1_writer_offsets(ctx, fmt, mod, wfn, prov, b)
